@@ -46,17 +46,17 @@ func reducedFaults(entry, shape string) (fs []Fault) {
 	return
 }
 
-var sentinelShapes = []string{"generator", "async", "forofnested", "tryfinally", "nestedrun", "yieldstar", "deep", "withrefs", "classes", "sortnested"}
+var sentinelShapes = []string{"generator", "async", "forofnested", "tryfinally", "nestedrun", "yieldstar", "deep", "withrefs", "classes", "sortnested", "S_async", "S_iter"}
 
 // historyAlphabet: the transitions applied to every state of the history search.
 func historyAlphabet(thorough bool) (al []Call) {
 	for _, s := range allShapes {
-		for _, en := range entries {
+		for _, en := range entriesOf(s.Name) {
 			al = append(al, Call{Entry: en, Shape: s.Name})
 		}
 	}
 	faulted := func(shape string) {
-		for _, en := range entries {
+		for _, en := range entriesOf(shape) {
 			for _, f := range reducedFaults(en, shape) {
 				al = append(al, Call{Entry: en, Shape: shape, Faults: []Fault{f}})
 			}
